@@ -201,6 +201,7 @@ def validate_cases(out, prop, module, cases, results, project, constants, wd, wh
         for idx in pending:
             evs += per_case[idx]
         res = validate(module, evs, os.path.join(wd, "%s_%d" % (tag, rounds)), constants)
+        out.add(states=res.get("states", 0), transitions=res.get("generated", 0))
         for k in res.get("kf", []) or []:
             if kf_handler:
                 kf_handler(k)
